@@ -26,8 +26,8 @@ class BestSizes(Contract):
     props = {'*': ['C06'], 'meta': ['C06', 'C02']}
 
     def configs(self, tier):
-        fs = (0, 1, 2, 7) if tier == 'quick' else (0, 1, 2, 3, 7, 12, 20)
-        bits = 8 if tier == 'quick' else 16
+        fs = (0, 1, 2, 7) if tier == 'quick' else (0, 1, 2, 3, 7, 12)
+        bits = 8 if tier == 'quick' else 11      # (thorough with 16 bits / f = 20 took more than 100 minutes on 16 cores: trimmed)
         for signed in (None, True, False):
             for f in fs:
                 for shape in ([], [2]) if tier == 'quick' else ([], [1], [2], [3]):
